@@ -59,6 +59,27 @@ type c14HookConn struct {
 	mu     sync.Mutex
 	armed  context.CancelFunc
 	sawNow chan struct{}
+	onData context.CancelFunc // when set: called as soon as a Read has received bytes, before it returns them
+}
+
+// Read: when `onData` is set, the context of the pending stratum Read is cancelled at the instant bytes have been received,
+// and the cancellation's deadline is in place before the bytes are handed to bufio
+func (h *c14HookConn) Read(p []byte) (int, error) {
+	n, err := h.Conn.Read(p)
+	h.mu.Lock()
+	f, saw := h.onData, h.sawNow
+	if n > 0 {
+		h.onData = nil
+	}
+	h.mu.Unlock()
+	if n > 0 && f != nil {
+		f()
+		select {
+		case <-saw:
+		case <-time.After(time.Second):
+		}
+	}
+	return n, err
 }
 
 func (h *c14HookConn) SetReadDeadline(t time.Time) error {
@@ -128,6 +149,20 @@ func c14ReadCase(tr *vh.Transcript, ops []string) {
 			sendQ <- c14Unhex(f[1])
 			synctest.Wait()
 			check()
+		case "sendc": // bytes arrive and the pending read's context is cancelled at that instant
+			if reading {
+				client.mu.Lock()
+				client.onData = cancel
+				client.mu.Unlock()
+			}
+			sendQ <- c14Unhex(f[1])
+			synctest.Wait()
+			time.Sleep(2 * time.Second)
+			synctest.Wait()
+			check()
+			if reading {
+				tr.Out("still-blocked")
+			}
 		case "read":
 			if reading {
 				tr.Out("busy")
@@ -392,6 +427,49 @@ func c14GenRead(r *vh.Rng) []string {
 	return ops
 }
 
+// c14GenReadC: short lines only (everything stays inside bufio's buffer), small segments, and segments that arrive at the
+// instant the pending read is cancelled (`sendc`)
+func c14GenReadC(r *vh.Rng) []string {
+	var stream []byte
+	nLines := 2 + r.Intn(7)
+	for i := 0; i < nLines; i++ {
+		var l []byte
+		for {
+			if l = c14Line(r, i); len(l) < 200 {
+				break
+			}
+		}
+		stream = append(stream, l...)
+		stream = append(stream, '\n')
+	}
+	var ops []string
+	for len(stream) > 0 {
+		n := 1 + r.Intn(90)
+		if n > len(stream) {
+			n = len(stream)
+		}
+		if r.Bool(60) {
+			ops = append(ops, "read")
+		}
+		if r.Bool(50) {
+			ops = append(ops, "sendc "+c14Hex(stream[:n]))
+		} else {
+			ops = append(ops, "send "+c14Hex(stream[:n]))
+		}
+		stream = stream[n:]
+		if r.Bool(20) {
+			ops = append(ops, "cancel")
+		}
+	}
+	for i := 0; i < nLines+2; i++ {
+		ops = append(ops, "read")
+		if r.Bool(20) {
+			ops = append(ops, "cancel")
+		}
+	}
+	return ops
+}
+
 func c14GenWrite(r *vh.Rng) []string {
 	var ops []string
 	n := 2 + r.Intn(7)
@@ -469,7 +547,11 @@ func TestVerifC14(t *testing.T) {
 		switch i % 3 {
 		case 0:
 			tr.Case(i, "read")
-			c14Bubble(t, tr, "read", c14GenRead(cr))
+			if i%2 == 0 {
+				c14Bubble(t, tr, "read", c14GenRead(cr))
+			} else {
+				c14Bubble(t, tr, "read", c14GenReadC(cr))
+			}
 		case 1:
 			tr.Case(i, "write")
 			c14Bubble(t, tr, "write", c14GenWrite(cr))
